@@ -182,7 +182,9 @@ def run_functional(ctx, case):
         ctx.label('skipped: ill-conditioned theta for an orthonormalising map')
         return
     tin = torch.tensor(theta) if backend == 'torch' else theta
+    theta_before = theta.copy()
     out = R.call(tin, dim, rank, field, opt)
+    ctx.close(_np(tin), theta_before, 0, f'{name}: the parameter array passed in is not modified')
     ctx.require(isinstance(out, torch.Tensor) == (backend == 'torch'), f'{name}: backend preserved')
     x = _np(out)
     check_constraint(ctx, name, x, dim, rank, field, opt, prec, theta)
